@@ -13,7 +13,7 @@ from tools import common
 
 LEVEL = "proof"
 GUARDED = {1, 2, 3, 4, 5, 6, 7}
-FORMAT = ("BZ stage(0 global,1 legalize,2 detailed) hascb pvar(0 valid,1-6 an invalid parameter set) effort throwk(callback index that throws, -1 none) "
+FORMAT = ("BZ stage(0 global,1 legalize,2 detailed) hascb pvar(0 valid,1-6 an invalid parameter set,7 library defaults,8-17 accepted boundary values: see mkParams in harness/api.cpp) effort throwk(callback index that throws, -1 none) "
           "smode(ops per callback: 1 guarded setters,2 placement setters,4 size setters,8 nested call,16 net weights,32 nested=detailed,64 nested has bad params) "
           "pmode(ops after the call) seed nrows (minX maxX minY maxY orient)* ncells (x y w h orient pol fixed obs)* nnets (npins (cell xo yo)* w2)*")
 
@@ -198,6 +198,10 @@ def evaluate(lines, impl, model):
         t = l.split()
         ninv, cls = [int(x) for x in meta.split()]
         dist["stage"][t[1]] = dist["stage"].get(t[1], 0) + 1
+        pk = "valid" if t[3] == "0" else "invalid" if int(t[3]) <= 6 else "library-defaults" if t[3] == "7" else "accepted-boundary"
+        dist.setdefault("parameters", {})[pk] = dist.setdefault("parameters", {}).get(pk, 0) + 1
+        if t[3] in ("8", "16"):
+            dist["nbPasses_0"] = dist.get("nbPasses_0", 0) + 1
         ck = "callback" if cls >= 100 else str(cls)
         dist["class"][ck] = dist["class"].get(ck, 0) + 1
         dist["callbacks"][str(min(ninv, 12))] = dist["callbacks"].get(str(min(ninv, 12)), 0) + 1
@@ -267,7 +271,10 @@ def run(ctx):
                     "addNet/setNets argument tests (sizes, limits start at 0 and sorted, pins on existing cells) are modelled and exercised with acceptable and unacceptable arguments"],
                 "evaluations": len(lines), "distinct_nontrivial": len(nontriv),
                 "rule": "seeded random circuits (1-6 rows, 1-8 cells, nets, fixed cells, polarities, utilisation 20-115% so that legalization also fails), stage uniform in "
-                        "{global, legalize, detailed}, 10% without callback, 20% with one of 6 invalid parameter sets, efforts 1-9 (steps capped so that a run has <= ~12 callbacks); "
+                        "{global, legalize, detailed}, 10% without callback, 20% with one of 6 invalid parameter sets, 20% with one of 10 parameter sets AT THE BOUNDARY of what "
+                        "ColoquinteParameters::check() accepts (detailed.nbPasses 0, maxNbSteps 1, detailed windows of one row / zero cells, rough legalization 0 steps and "
+                        "reopt sizes 1, bin size 1 and 25, tolerances / blendings / noise / exponents at both ends), also used by the nested / further call, "
+                        "efforts 1-9 (steps capped so that a run has <= ~12 callbacks); "
                         "per instance: one counting run, then one run per callback index with the callback throwing there (exhaustive per instance); inside EVERY invocation and "
                         "after the call: the 7 guarded setters with acceptable and unacceptable arguments, placement/size/weight setters, a nested / further placement call "
                         "(legalize or detailed, valid or invalid parameters) followed by setters again. non-trivial = a guarded setter was issued inside a callback or the call "
